@@ -276,6 +276,7 @@ def run(out, tier):
     conflict_table = conflict_cost(out, h, tier) if inproc else []
     cli = cli_tie(out, tier, findings)
     prop = propagation_cost(out, tier)
+    selerr = selection_error_cost(out, tier)
     table = []
     for i, (fam, name, g, top, bottom) in enumerate(rows):
         if fam in ("ladder2", "chain") and impl[i]:
@@ -298,6 +299,7 @@ def run(out, tier):
         "conflict_detection_counts": conflict_table,
         "cli_tie": cli,
         "failure_propagation": prop,
+        "selection_error_path": selerr,
     })
     out.assumptions += [
         "calls are counted exactly: len(GetAncestors(n))+1, len(GetDescendants(n))+1, and Select() invocations on counting BuildNodes for "
@@ -433,6 +435,56 @@ def propagation_cost(out, tier):
                 elif rc == 0:
                     out.violation("`grog build %s` on %s succeeded although //:n0 fails" % (sel, gname),
                                   {"graph_name": gname, "graph": sl.graphspec(gg), "cmd": "grog build " + sel}, no_input=True)
+    return {"available": True, "limit_s": LIMIT, "runs": res}
+
+
+def selection_error_cost(out, tier):
+    """The ERROR path of build selection: a deep ladder below the selected target plus ONE platform-incompatible transitive
+    dependency (reached last from the top / hanging below the bottom / in the middle).  `grog build //:top` must report the
+    platform error about as fast as on a chain: an error path that searches the dependency chain by enumerating paths needs
+    2^40 steps."""
+    try:
+        grog = vlib.build_grog()
+    except vlib.HarnessUnavailable as e:
+        out.notes.append("selection_error_cost: unavailable (%s)" % str(e)[-300:])
+        return {"available": False}
+    LIMIT = 25.0
+    res = []
+    for w, d in ([(2, 40), (3, 22)] + ([(3, 40)] if tier != "quick" else [])):
+        g = sl.ladder(w, d)
+        V = len(g)
+        for where in ("top-last", "top-first", "bottom", "middle"):
+            deps = [list(ds) for ds in g]
+            guard = V            # index of the extra node
+            host = {"top-last": V - 1, "top-first": V - 1, "bottom": 0, "middle": V // 2}[where]
+            if where == "top-first":
+                deps[host] = [guard] + deps[host]
+            else:
+                deps[host] = deps[host] + [guard]
+            gname = "ladder(%d,%d)+guard@%s" % (w, d, where)
+            ws = os.path.join(vlib.scratch(), "c19sel_%d_%d_%s" % (w, d, where))
+            os.makedirs(ws, exist_ok=True)
+            targets = [{"name": "n%d" % i, "command": "true", "dependencies": ["//:n%d" % j for j in ds]} for i, ds in enumerate(deps)]
+            targets.append({"name": "n%d" % guard, "command": "true", "platforms": ["plan9/386"]})
+            with open(os.path.join(ws, "BUILD.json"), "w") as f:
+                json.dump({"targets": targets}, f)
+            open(os.path.join(ws, "grog.toml"), "w").write("")
+            env = sl.grog_env(os.path.join(vlib.scratch(), "c19selroot"))
+            t = time.time()
+            try:
+                p = subprocess.run([grog, "build", "//:n%d" % (V - 1)], cwd=ws, env=env, stdout=subprocess.PIPE, stderr=subprocess.PIPE,
+                                   timeout=LIMIT, text=True)
+                rc, dt, msg = p.returncode, time.time() - t, (p.stdout + p.stderr)[-300:]
+            except subprocess.TimeoutExpired:
+                rc, dt, msg = "timeout", LIMIT, ""
+            res.append({"graph": gname, "V": V + 1, "rc": rc, "seconds": round(dt, 2)})
+            rp = {"graph_name": gname, "graph": sl.graphspec(deps + [[]]), "incompatible_node": "//:n%d" % guard, "cmd": "grog build //:n%d" % (V - 1), "limit_s": LIMIT}
+            if rc == "timeout":
+                out.violation("`grog build //:n%d` on %s (one platform-incompatible dependency) did not end within %.0f s: the error path of "
+                              "selection is not polynomial in the number of targets and edges" % (V - 1, gname, LIMIT), rp)
+            elif rc == 0 or "platform" not in msg.lower():
+                out.violation("`grog build //:n%d` on %s: a selected target has a platform-incompatible dependency but the build does not report it "
+                              "(rc %s: %s)" % (V - 1, gname, rc, " ".join(msg.split())[-160:]), dict(rp, output=msg), no_input=True)
     return {"available": True, "limit_s": LIMIT, "runs": res}
 
 
